@@ -204,18 +204,10 @@ class Op:
 
 
 def shortest_decimal(d: float, single: bool) -> Fraction:
-    """the shortest decimal literal that round-trips at the given precision, as an exact rational.
-    Both engines read literals this way, so the rounding of a literal to its precision is not judged."""
-    if d == 0 or d != d or d in (float("inf"), float("-inf")):
-        return Fraction(d) if d == d and abs(d) != float("inf") else Fraction(0)
-    if not single:
-        return Fraction(repr(d))
-    want = struct.unpack("<f", struct.pack("<f", d))[0]
-    for p in range(1, 10):
-        txt = "%.*g" % (p, want)
-        if struct.unpack("<f", struct.pack("<f", float(txt)))[0] == want:
-            return Fraction(txt)
-    return Fraction(want)
+    """literal -> rational, exactly as loopsym reads literals (common.simple_rational)"""
+    from ..common import simple_rational
+
+    return simple_rational(d, single)
 
 
 def parse_fp(tok: str, ty: Ty) -> Fraction:
